@@ -239,7 +239,7 @@ def round_trip(vtf: VTF, sheet_ver: int, fill: str, given: dict, variant: str, w
     sheet_in = proj_sheet(vtf)
     pre_keys = {(f, slice_index(s), m): fr for (f, s, m), fr in vtf._frames.items()}
     rec = {'k': 'rt', 'c': c, 'variant': variant, 'levels': levels, 'meta': meta, 'sheet': sheet_in, 'exc': '',
-           'hdr': {'err': '-'}, 'out': 0, 'pix': [], 'exact': -1, 'resave': True}
+           'hdr': {'err': '-'}, 'out': 0, 'pix': [], 'exact': -1, 'resave': True, 'low2': [], 'lowout': []}
     sig = {'kind': 'rt', 'action': 'save', 'variant': variant, 'fmt': c['fmt'], 'low': c['low'], 'minor': c['minor'],
            'cube': c['cube'], 'src': src, 'thin': min(c['w'], c['h']) == 1, 'has_res': bool(c['res']),
            'sheet_ver': sheet_ver if c['sheet']['has'] else -1}
@@ -255,6 +255,11 @@ def round_trip(vtf: VTF, sheet_ver: int, fill: str, given: dict, variant: str, w
         rec['out'] = {'c': out_c, 'keys': proj_keys(back, True), 'meta': proj_meta(back), 'sheet': proj_sheet(back)}
         offs = {(f, slice_index(s), m): fr._fileinfo[1] for (f, s, m), fr in back._frames.items()}
         back.load()
+        if c['low'] != 'NONE':
+            hi0 = min(offs.values()) if offs else len(data)
+            lsize = FMT_INFO[c['low']][1] * c['lw'] * c['lh'] // 8
+            rec['low2'] = list(data[hi0 - lsize: hi0])
+            rec['lowout'] = pixels_of(back._low_res)
         if with_pix:
             bpp = FMT_INFO[c['fmt']][1] // 8
             for key in sorted(pre_keys):
@@ -321,7 +326,7 @@ def replay_edges(edge_file: str, mode: str, out: hlib.RecWriter, stats: dict) ->
     edges = [e for e in json.load(open(edge_file)) if e.get('tag') == 'EDGE']
     key = lambda s: json.dumps(s, sort_keys=True)
     history = any(e['a']['op'] == 'resave' for e in edges)
-    build_ops = ('create', 'resource', 'sheet') + (('save', 'read', 'load', 'look', 'poke', 'compute', 'clear') if history else ())
+    build_ops = ('create', 'resource', 'sheet') + (('save', 'read', 'load', 'loadall', 'look', 'poke', 'compute', 'clear') if history else ())
     build_edges = [e for e in edges if e['a']['op'] in build_ops]
     paths = hlib.bfs_paths(build_edges, key)
     seed = hlib.seed()
@@ -337,7 +342,7 @@ def replay_edges(edge_file: str, mode: str, out: hlib.RecWriter, stats: dict) ->
                     if p['op'] == 'poke':
                         prng = random.Random(case_seed * 31 + len(ops))
                         ops.append({'op': 'poke', 'm': p['m'], 'px': [prng.randrange(256) for _ in range(4)]})
-                    elif p['op'] in ('load', 'look', 'compute', 'clear'):
+                    elif p['op'] in ('load', 'loadall', 'look', 'compute', 'clear'):
                         ops.append(p)
                 rec = hist_record(hist_cfg(path[0]), ops, case_seed, 'edge')
                 out.write(rec)
@@ -409,7 +414,7 @@ def access_record(path: list, case_seed: int, op: str, x: int, y: int) -> dict:
 
 
 # ------------------------------------------------------------------ synthesised files (reader only)
-def synth_file(c: dict, contents: dict | None = None) -> bytes:
+def synth_file(c: dict, contents: dict | None = None, low_bytes: bytes | None = None) -> bytes:
     """A VTF laid out by hand from the format description; images zero filled, or the bytes given
     per (frame, slice, mipmap)."""
     ind, bits, comp = FMT_INFO[c['fmt']]
@@ -419,6 +424,9 @@ def synth_file(c: dict, contents: dict | None = None) -> bytes:
         return bits_ * ((w + 3) // 4) * ((h + 3) // 4) // 8 if comp_ else bits_ * w * h // 8
     slices = (6 if c['minor'] >= 5 else 7) if c['cube'] else c['depth']
     low = bytes(size(lbits, lcomp, c['lw'], c['lh'])) if c['low'] != 'NONE' else b''
+    if low_bytes is not None:
+        assert len(low_bytes) == len(low), (len(low_bytes), len(low))
+        low = low_bytes
     hi = b''
     for m in reversed(range(c['mip'])):
         one = size(bits, comp, max(1, c['w'] >> m), max(1, c['h'] >> m))
@@ -494,39 +502,13 @@ def hist_record(c: dict, ops: list, seed: int, src: str) -> dict:
                 raw = bytes(rng.randrange(256) for _ in range(bits * w * h // 8))
                 contents[f, sl, m] = raw
                 stored.append({'k': [f, sl, m], 'w': w, 'h': h, 'raw': list(raw)})
-    # abstract parameter for known findings: an erased level whose nearest kept ancestor is a level
-    # >= 1 that is still lazy (not loaded) when the texture is saved
-    loaded = [False] * c['mip']
-    state = ['file'] * c['mip']            # file: as read; erased; gen: regenerated
-    lazy_parent = False
-
-    def regen() -> None:
-        nonlocal lazy_parent
-        for m in range(1, c['mip']):
-            if state[m] == 'erased':
-                if state[m - 1] == 'file' and m - 1 >= 1 and not loaded[m - 1]:
-                    lazy_parent = True
-                state[m], loaded[m] = 'gen', True
-    for o in ops:
-        if o['op'] == 'load':
-            for m in range(c['mip']):
-                if (o['sel'] == 'top' and m == 0) or (o['sel'] == 'small' and m >= 1) or o['sel'] == 'all':
-                    loaded[m] = True
-        elif o['op'] in ('look', 'poke'):
-            if c['frames'] * slices == 1:      # looking loads one frame only, not the whole level
-                loaded[o['m']] = True
-        elif o['op'] == 'compute':
-            regen()
-        elif o['op'] == 'clear':
-            for m in range(c['mip']):
-                if m > o['after']:
-                    state[m], loaded[m] = 'erased', False
-    regen()
+    low_raw = bytes(rng.randrange(256) for _ in range(FMT_INFO[c['low']][1] * c['lw'] * c['lh'] // 8)) if c['low'] != 'NONE' else b''
     rec = {'k': 'hist', 'c': c, 'ops': ops, 'stored': stored, 'exc': '', 'hdr': {'err': '-'}, 'keys': [], 'pix': [], 'seed': seed,
+           'low': list(low_raw), 'low2': [], 'lowout': [],
            'sig': {'kind': 'hist', 'action': 'resave', 'fmt': c['fmt'], 'src': src, 'minor': c['minor'], 'cube': c['cube'],
-                   'ops': '+'.join(o['op'] for o in ops) or 'none', 'lazy_parent': lazy_parent}}
+                   'ops': '+'.join(o['op'] for o in ops) or 'none'}}
     try:
-        vtf = VTF.read(io.BytesIO(synth_file(c, contents)))
+        vtf = VTF.read(io.BytesIO(synth_file(c, contents, low_raw if c['low'] != 'NONE' else None)))
         sl_list = slices_of(vtf)
         for o in ops:
             if o['op'] == 'load':
@@ -537,6 +519,8 @@ def hist_record(c: dict, ops: list, seed: int, src: str) -> dict:
                 tuple(frame_of(vtf, 0, sl_list[0], o['m'])[0, 0])
             elif o['op'] == 'poke':
                 frame_of(vtf, 0, sl_list[0], o['m'])[0, 0] = tuple(o['px'])
+            elif o['op'] == 'loadall':
+                vtf.load()
             elif o['op'] == 'compute':
                 vtf.compute_mipmaps()
             elif o['op'] == 'clear':
@@ -553,6 +537,10 @@ def hist_record(c: dict, ops: list, seed: int, src: str) -> dict:
             f, sl, m, w, h, off = row
             fr = back._frames[f, CubeSide(sl) if c['cube'] else sl, m]
             rec['pix'].append({'k': [f, sl, m], 'raw': list(data[off: off + bits * w * h // 8]) if off >= 0 else [], 'out': pixels_of(fr)})
+        if c['low'] != 'NONE':
+            hi0 = min(row[5] for row in rec['keys'])
+            rec['low2'] = list(data[hi0 - len(low_raw): hi0])
+            rec['lowout'] = pixels_of(back._low_res)
     except Exception as exc:  # noqa: BLE001 - the outcome is data for the specification
         rec['exc'] = f'{type(exc).__name__}: {exc}'
         rec['sig']['exc'] = type(exc).__name__
@@ -560,28 +548,59 @@ def hist_record(c: dict, ops: list, seed: int, src: str) -> dict:
 
 
 def hist_cfg(a: dict) -> dict:
-    """The file configuration of a model Create action (no thumbnail, consistent mipmap count)."""
+    """The file configuration of a model Create action (consistent mipmap count)."""
     lv = 1 + min(a['w'].bit_length(), a['h'].bit_length()) - 1
     return {'w': a['w'], 'h': a['h'], 'frames': a['frames'], 'depth': DEPTH_OF[a['lay']], 'cube': a['lay'] == 'cube', 'fill': 'l0',
-            'minor': a['minor'], 'fmt': a['fmt'], 'low': 'NONE', 'lw': 0, 'lh': 0, 'mip': lv, 'res': [],
+            'minor': a['minor'], 'fmt': a['fmt'], 'low': a.get('low', 'NONE'), 'lw': a.get('lw', 16), 'lh': a.get('lh', 16), 'mip': lv,
+            'res': [],
             'sheet': {'has': False, 'ver': 0, 'seqs': []}}
+
+
+THUMB_FMTS = ['BGRA8888', 'RGBA8888', 'ABGR8888', 'IA88', 'A8', 'I8', 'RGB888', 'BGRA4444', 'BGRA5551', 'BGRX5551', 'UV88',
+              'RGB888_BLUESCREEN', 'BGRX8888', 'ARGB8888']
+
+
+def thumb_hist(out: hlib.RecWriter, seed: int, stats: dict) -> None:
+    """Read -> (nothing | load() | clear_mipmaps) -> save -> read on textures with the usual 16x16 thumbnail,
+    with (32x32, 64x64) and without (16x16, 8x4, 64x32) a level of twice its size."""
+    n = 0
+    for (w, h) in ((16, 16), (8, 4), (64, 32), (32, 32), (64, 64)):
+        for low in ('BGRA8888', 'IA88'):
+            for ops in ([], [{'op': 'loadall'}], [{'op': 'clear', 'after': 0}], [{'op': 'load', 'sel': 'small'}]):
+                if w * h >= 2048 and ops and ops[0]['op'] == 'load':
+                    continue
+                a = {'w': w, 'h': h, 'frames': 1, 'lay': 'd1', 'minor': 4 if low == 'IA88' else 5, 'fmt': 'RGBA8888' if low == 'IA88' else 'A8',
+                     'low': low, 'lw': 16, 'lh': 16}
+                n += 1
+                out.write(hist_record(hist_cfg(a), ops, seed * 7 + n, 'thumb'))
+                stats['hist_thumb'] = stats.get('hist_thumb', 0) + 1
 
 
 def random_hist(out: hlib.RecWriter, rng: random.Random, n_cases: int, stats: dict) -> None:
     for _ in range(n_cases):
         a = {'w': rng.choice([1, 2, 4, 8, 16]), 'h': rng.choice([1, 2, 4, 8, 16]), 'frames': rng.choice([1, 1, 2, 3]),
              'lay': rng.choice(['d1', 'd1', 'd2', 'cube']), 'minor': rng.choice([2, 3, 4, 5]), 'fmt': rng.choice(WRITABLE)}
+        a['low'] = rng.choice(['NONE'] + THUMB_FMTS * 2)
+        if rng.random() < 0.5 and min(a['w'], a['h']) >= 2:     # a thumbnail half the size of some level
+            m = rng.randrange(min(a['w'], a['h']).bit_length() - 1)
+            a['lw'], a['lh'] = max(1, (a['w'] >> m) // 2), max(1, (a['h'] >> m) // 2)
+        else:
+            a['lw'], a['lh'] = rng.choice([1, 2, 4, 8, 16]), rng.choice([1, 2, 4, 16])
         c = hist_cfg(a)
         if rng.random() < 0.3:
             c['mip'] = rng.randint(1, c['mip'])          # files need not hold every level
         ops = []
         cleared = c['mip']                               # levels >= cleared are erased (until a compute)
         for _ in range(rng.choice([0, 0, 1, 2, 3, 4])):
-            kind = rng.choice(['load', 'look', 'poke', 'compute', 'clear'])
+            kind = rng.choice(['load', 'loadall', 'look', 'poke', 'compute', 'clear'])
+            if kind == 'loadall' and cleared < c['mip']:
+                kind = 'compute'
             if kind == 'clear':
                 after = rng.randint(0, max(0, c['mip'] - 1))
                 ops.append({'op': 'clear', 'after': after})
                 cleared = min(cleared, after + 1)
+            elif kind == 'loadall':
+                ops.append({'op': 'loadall'})
             elif kind == 'compute':
                 ops.append({'op': 'compute'})
                 cleared = c['mip']
@@ -613,7 +632,7 @@ def random_cases(out: hlib.RecWriter, rng: random.Random, n_cases: int, stats: d
         fmt = rng.choice(WRITABLE if not big else ['RGBA8888', 'BGRA8888', 'ABGR8888', 'RGB888', 'BGRX8888', 'UVLX8888', 'A8', 'I8'])
         lay = rng.choice(['d1', 'd1', 'd2', 'd4', 'cube'])
         a = {'op': 'create', 'w': w, 'h': h, 'frames': rng.choice([1, 1, 2, 3, 5]), 'lay': lay, 'minor': rng.choice([2, 3, 4, 5]),
-             'fmt': fmt, 'low': rng.choice(['NONE', 'RGB888', 'BGRA8888', 'I8']), 'fill': rng.choice(['l0', 'all', 'mid'])}
+             'fmt': fmt, 'low': rng.choice(['NONE'] + THUMB_FMTS), 'fill': rng.choice(['l0', 'all', 'mid'])}
         path = [a]
         used = set()
         for _ in range(rng.choice([0, 0, 1, 2, 4])):
@@ -631,7 +650,11 @@ def random_cases(out: hlib.RecWriter, rng: random.Random, n_cases: int, stats: d
             path.append({'op': 'sheet', 'ver': rng.choice([0, 1]), 'seqs': [rng.choice([0, 1, 2, 5]) for _ in range(rng.randint(1, 8))]})
         seed = rng.getrandbits(40)
         variant = rng.choice(['adj'] * 6 + ['asis'] * 2 + ['regen'] * 2)
-        with_pix = w * h * a['frames'] * (7 if lay == 'cube' else DEPTH_OF[lay]) <= 256
+        if rng.random() < 0.08:       # the thumbnail regenerated from the 32x32 level, with the pixels logged
+            a.update(w=rng.choice([32, 64]), h=0, frames=1, lay='d1', fmt=rng.choice(['RGBA8888', 'BGRA8888', 'A8']))
+            a['h'] = a['w']
+            w = h = a['w']
+        with_pix = w * h * a['frames'] * (7 if lay == 'cube' else DEPTH_OF[lay]) <= 256 or (a['frames'] == 1 and a['lay'] == 'd1' and w == h and w in (32, 64))
         rec = variant_record(path, seed, variant, with_pix, 'random')
         rec['hist'] = path
         rec['seed'] = seed
@@ -653,6 +676,7 @@ def main() -> None:
         out = hlib.RecWriter(sys.argv[2])
         random_cases(out, random.Random(hlib.seed() * 7919 + 15), 1500 if hlib.tier() == 'thorough' else 200, stats)
         random_hist(out, random.Random(hlib.seed() * 7919 + 16), 1500 if hlib.tier() == 'thorough' else 300, stats)
+        thumb_hist(out, hlib.seed(), stats)
     elif mode == 'replay':
         rp = json.load(open(sys.argv[2]))
         rec = rp['record']
